@@ -22,7 +22,17 @@ fn parse_file_context(
     dir_entry: &DirEntry,
 ) -> anyhow::Result<Option<ParseFileContext>> {
     let crate_name = if multi_file {
-        let Some(crate_name) = CrateName::find_crate_name(dir_entry.path()) else {
+        // The crate is the directory above `src`. A path given relative to the crate itself
+        // (`src/lib.rs`, `./src/lib.rs`, `../src/lib.rs`) does not spell that directory out:
+        // ask the file system for it.
+        let path = dir_entry.path();
+        let spelled_out = CrateName::find_crate_name(path)
+            .filter(|crate_name| !matches!(crate_name.as_str(), "." | ".."));
+        let Some(crate_name) = spelled_out.or_else(|| {
+            path.canonicalize()
+                .ok()
+                .and_then(|path| CrateName::find_crate_name(&path))
+        }) else {
             return Ok(None);
         };
         crate_name
